@@ -91,7 +91,7 @@ func linDepth(v ssa.Value, d int) linForm {
 		// the index variable of a range loop (phi + 1) is one symbol
 		if ph, ok := x.X.(*ssa.Phi); ok && ph.Comment == "rangeindex" && x.Op == token.ADD {
 			if k, ok := constInt(x.Y); ok && k == 1 {
-				r.coef[normSym(v)] = 1
+				r.coef["rangeidx:"+normSym(v)] = 1
 				return r
 			}
 		}
@@ -147,6 +147,16 @@ func ineqs(facts []Fact) []linForm {
 			continue
 		}
 		a, b := lin(cmp.X), lin(cmp.Y)
+		// strings.Index / LastIndex return -1 or a valid position: v != -1 means v >= 0
+		if cmp.Op == token.NEQ {
+			if k, ok := constInt(cmp.Y); ok && k == -1 {
+				if call, ok := cmp.X.(*ssa.Call); ok {
+					if f := calleeObj(&call.Call); f != nil && f.Pkg() != nil && (f.Pkg().Path() == "strings" || f.Pkg().Path() == "bytes") && strings.Contains(f.Name(), "Index") {
+						out = append(out, a)
+					}
+				}
+			}
+		}
 		switch cmp.Op {
 		case token.GTR: // a > b  =>  a-b-1 >= 0
 			g := a.add(b, -1)
@@ -177,7 +187,7 @@ func nonNegByNature(g linForm, unsignedSyms map[string]bool) bool {
 		if k < 0 {
 			return false
 		}
-		if !strings.HasPrefix(s, "len(") && !unsignedSyms[s] {
+		if !strings.HasPrefix(s, "len(") && !strings.HasPrefix(s, "rangeidx:") && !unsignedSyms[s] {
 			return false
 		}
 	}
@@ -253,4 +263,24 @@ func indexInBounds(idx, seq ssa.Value, b *ssa.BasicBlock) (lower, upper bool) {
 		}
 	}
 	return
+}
+
+// proveValueNonNeg: v >= 0 at block b; a phi is judged edge by edge.
+func proveValueNonNeg(v ssa.Value, b *ssa.BasicBlock, depth int) bool {
+	hyps := ineqs(factsOf(b.Parent()).At(b))
+	if proveNonNeg(lin(v), hyps, unsignedSymbolsOf(v)) {
+		return true
+	}
+	if ph, ok := v.(*ssa.Phi); ok && depth < 3 {
+		for k, e := range ph.Edges {
+			pred := ph.Block().Preds[k]
+			ok := false
+			withEdge(pred, ph.Block(), func() { ok = proveValueNonNeg(e, pred, depth+1) })
+			if !ok {
+				return false
+			}
+		}
+		return true
+	}
+	return false
 }
